@@ -14,11 +14,7 @@ LEVEL = {"C01": "model_checking", "C02": "model_checking", "C03": "model_checkin
 
 
 def viols_of(res):
-    out = []
-    txt = res["output"].replace("\n", " ")
-    for m in re.finditer(r'<<\s*"VIOL",\s*"([^"]+)",\s*(\d+),(.*?)>>\s*(?=<<\s*"(?:VIOL|ACCEPTED)")', txt):
-        out.append((m.group(1), int(m.group(2)), " ".join(m.group(3).split())[:600]))
-    return out
+    return C.parse_viols(res["output"] if isinstance(res, dict) else res)
 
 
 def export_abi(ctx):
